@@ -350,6 +350,8 @@ func corpusHandmade() {
 		}
 	}
 
+	corpusSizes() // sizes.go: FindAndDelete at the push-encoding edges, tapscript leaves above 10000 bytes, NULLFAIL with 1..2-byte signatures
+
 	// ---- bare multisig m-of-n, n = 0..20 (+21), signature order, NULLDUMMY, NULLFAIL
 	for n := 0; n <= 21; n++ {
 		keys := make([]*Key, n)
